@@ -1,12 +1,17 @@
 import SamplyModel.Model.ConvSpec
 import SamplyModel.Lemmas.DepthIter
+import SamplyModel.Lemmas.ConvJit
 /-!
 # C14 — deep stacks are shortened only in the middle, with an exact elision count
 
 Model: `Conv.depthLimit` (`Model/ConvFlush.lean`) follows `StackDepthLimitingFrameIter` run to completion
 on the list `L` of frames the inner iterator yields, with length hint `n` (N = 200). The hint is the
 length of the raw stack slice: it equals `|L|` unless the slice contains a truncated-stack marker
-(`|L| = n − 1`) or an extra label frame is prepended (`|L| = n + 1`).
+(`|L| = n − 1`), an extra per-CPU label frame is prepended (`|L| = n + 1`), or JS label frames are emitted for
+JIT functions (`n ≤ |L| ≤ 2·n`, one label frame per frame of a function classified as JS). The limiter decides
+by `n` and counts what the inner iterator yields, so with label frames the output can be far longer than 501
+frames (`C14_label_frames_exceed_501`, `C14_output_length`); what it outputs is stated exactly, for every `L`
+and `n`, by `C14_limiter_output`.
 -/
 open Conv ConvSpec
 
@@ -140,3 +145,215 @@ theorem C14_meets_spec_elided (L : List Frame) (hne : ∀ f ∈ L, isElided f = 
   rw [e1] at h1 h2
   generalize L.length - (200 + c) = b at *
   refine ⟨⟨⟨⟨⟨h1, by omega⟩, trivial⟩, by omega⟩, by omega⟩, hpos⟩
+
+/-! ### JS label frames: the sharp statement
+
+The inner iterator of the limiter is `ConvertedStackIterD` (stack_converter.rs), which yields the extra first
+frame, and for every recorded frame the native frame, preceded by a JS label frame when the frame lies in a
+JIT function classified as JS. `Model/DepthIter.lean: csNext` transcribes it with its one-frame look-ahead
+(`pending_frame_handle`) and the `js_name_for_baseline_interpreter` state. -/
+
+/-- The look-ahead iterator, pulled until the first `None`, yields the extra first frame followed by the
+closed form `emitJs` the converter model uses — for every list of second-pass frames. -/
+theorem C14_converted_iter_refines (extra : Option Frame) (infos : List Info) :
+    csRun extra infos = extra.toList ++ emitJs none infos :=
+  csRun_eq extra infos
+
+/-- The limiter's inner iterator yields between `n` and `2·n` frames for a stack of `n` recorded frames
+(plus one with the per-CPU label frame), while the hint stays `n`. -/
+theorem C14_emitted_length (extra : Option Frame) (maps pm : List MapAdd) (stack : List SFrame) :
+    stack.length + extra.toList.length ≤ (convertStackX extra maps pm stack).length ∧
+    (convertStackX extra maps pm stack).length ≤ 2 * stack.length + extra.toList.length := by
+  unfold convertStackX
+  have h := emitJs_length none (stack.reverse.map (secondPass maps pm))
+  simp only [List.length_map, List.length_reverse] at h
+  simp only [List.length_append]
+  omega
+
+/-- **What the limiter outputs, exactly**, for every frame list `L` the inner iterator yields and every hint
+`n` (the iterator of the code, by `C14_iterator_refines`): unchanged below 500; otherwise, with
+`c = ((n − 300) / 200) · 200`: unchanged if fewer than 200 frames arrive, the first 199 frames if the inner
+iterator runs dry while skipping, else 200 frames, the placeholder stating `c`, and everything after the
+`200 + c` frames taken — however many that is. -/
+theorem C14_limiter_output (L : List Frame) (n : Nat) :
+    limRun 200 L n =
+      if n < 500 then L
+      else if L.length < 200 then L
+      else if L.length < 200 + (n - 300) / 200 * 200 then L.take 199
+      else L.take 200 ++ [Frame.elided ((n - 300) / 200 * 200)] ++ L.drop (200 + (n - 300) / 200 * 200) := by
+  rw [C14_iterator_refines]
+  by_cases h : n < 500
+  · simp only [h, if_true]; exact C14_unchanged L n h
+  · simp only [h, if_false]
+    obtain ⟨c, hs, hc, _⟩ := C14_count n (by omega)
+    unfold depthLimit
+    rw [hs, ← hc]
+    simp
+
+/-- deep stacks, whenever at least `200 + c` frames arrive (no hypothesis on how many more) -/
+theorem C14_elided_of_enough (L : List Frame) (n : Nat) (h : 500 ≤ n) (hL : 200 + (n - 300) / 200 * 200 ≤ L.length) :
+    depthLimit 200 L n =
+      L.take 200 ++ [Frame.elided ((n - 300) / 200 * 200)] ++ L.drop (200 + (n - 300) / 200 * 200) ∧
+    (depthLimit 200 L n).length = L.length - (n - 300) / 200 * 200 + 1 := by
+  have h1 := C14_limiter_output L n
+  rw [C14_iterator_refines] at h1
+  have a0 : ¬ n < 500 := by omega
+  have a1 : ¬ L.length < 200 := by omega
+  have a2 : ¬ L.length < 200 + (n - 300) / 200 * 200 := by omega
+  simp only [a0, a1, a2, if_false] at h1
+  refine ⟨h1, ?_⟩
+  rw [h1]
+  simp only [List.length_append, List.length_take, List.length_drop, List.length_cons, List.length_nil]
+  omega
+
+/-- **Output depth with label frames.** For hint `n ≥ 500` and at least `n` frames from the inner iterator
+(no truncated-stack marker), the output has `|L| − c + 1` frames: it stays within 501 frames exactly when the
+inner iterator yields at most `c + 500` frames (`n ≤ c + 499`, so at most a few hundred label frames fit);
+with `|L| = 2·n` (every frame in a JS function) it is `2·n − c + 1 > n + 300`. -/
+theorem C14_output_length (L : List Frame) (n : Nat) (h : 500 ≤ n) (hL : n ≤ L.length) :
+    (depthLimit 200 L n).length = L.length - (n - 300) / 200 * 200 + 1 ∧
+    ((depthLimit 200 L n).length ≤ 501 ↔ L.length ≤ (n - 300) / 200 * 200 + 500) ∧
+    (L.length = 2 * n → n + 300 < (depthLimit 200 L n).length) := by
+  obtain ⟨c, _, hc, _, _, _, _, h3⟩ := C14_count n h
+  have := (C14_elided_of_enough L n h (by rw [← hc]; omega)).2
+  rw [← hc] at this ⊢
+  refine ⟨this, by omega, by omega⟩
+
+/-- **When do kept frames plus stated elided frames equal the number of emitted frames?** For a hint `n ≥ 500`
+the output contains a placeholder with `kept + stated = |L|` exactly when the inner iterator yields at least
+`200 + c` frames — in particular always when it yields at least as many frames as the hint says (label frames
+only add frames), and never when it runs dry before or inside the elided piece (then there is no placeholder
+at all). -/
+theorem C14_sum_iff (L : List Frame) (hne : ∀ f ∈ L, isElided f = false) (n : Nat) (h : 500 ≤ n) :
+    (∃ pre post c, depthLimit 200 L n = pre ++ [Frame.elided c] ++ post ∧ pre.length + c + post.length = L.length) ↔
+      200 + (n - 300) / 200 * 200 ≤ L.length := by
+  constructor
+  · intro ⟨pre, post, c, hout, _⟩
+    by_cases hL : 200 + (n - 300) / 200 * 200 ≤ L.length
+    · exact hL
+    · exfalso
+      have h1 := C14_limiter_output L n
+      rw [C14_iterator_refines] at h1
+      have a0 : ¬ n < 500 := by omega
+      have hmem : Frame.elided c ∈ depthLimit 200 L n := by rw [hout]; simp
+      simp only [a0, if_false] at h1
+      have hsub : ∀ f ∈ depthLimit 200 L n, f ∈ L := by
+        intro f hf
+        rw [h1] at hf
+        split at hf
+        · exact hf
+        · have a2 : L.length < 200 + (n - 300) / 200 * 200 := by omega
+          simp only [a2, if_true] at hf
+          exact List.mem_of_mem_take hf
+      have := hne _ (hsub _ hmem)
+      simp [isElided] at this
+  · intro hL
+    obtain ⟨hd, _⟩ := C14_elided_of_enough L n h hL
+    refine ⟨L.take 200, L.drop (200 + (n - 300) / 200 * 200), (n - 300) / 200 * 200, hd, ?_⟩
+    simp only [List.length_take, List.length_drop]
+    omega
+
+/-- **Counterexample to "the output depth never exceeds 501 frames" on the code as it is**: 600 recorded
+frames, all in a JIT function classified as JS (`py::f`), hint 600: the inner iterator yields 1200 frames, the
+limiter keeps 200, states 200 elided, and passes the remaining 800 on: 1001 frames, a leaf part of 800 —
+while kept + stated = 1200 still holds. (Reproduced with the `samply` binary: C14 case `js600`.) -/
+theorem C14_label_frames_exceed_501 :
+    let infos := List.replicate 600 ({ frame := .lib "/tmp/perf-100.map" 1, js := some (.regular (.nonSelfHosted "f")) } : Info)
+    let L := emitJs none infos
+    L.length = 1200 ∧ (limRun 200 L 600).length = 1001 ∧
+      (limRun 200 L 600)[200]? = some (Frame.elided 200) ∧ 200 + 200 + 800 = L.length ∧
+      elisionOk L (limRun 200 L 600) = false ∧ elisionOkButDepth L (limRun 200 L 600) = true := by
+  decide +kernel
+
+/-- below the threshold the same happens without any elision: 300 recorded JS frames reach the profile as
+600 frames -/
+theorem C14_label_frames_exceed_501_shallow :
+    let infos := List.replicate 300 ({ frame := .lib "/tmp/perf-100.map" 1, js := some (.regular (.nonSelfHosted "f")) } : Info)
+    (limRun 200 (emitJs none infos) 300).length = 600 := by
+  decide +kernel
+
+/-- **What still holds with label frames** (the guarantee behind the reason tag `[js-label-depth]`): for every
+emitted list `L` without placeholders and every hint `500 ≤ n ≤ |L|` (label frames only add frames), the
+output satisfies every clause of the judged statement except the two upper bounds on the depth: placeholder at
+position 200, the 200 root-most frames verbatim, at least 100 leaf-most frames verbatim, stated count positive
+and kept + stated = |L|. -/
+theorem C14_meets_spec_but_depth (L : List Frame) (hne : ∀ f ∈ L, isElided f = false) (n : Nat) (h : 500 ≤ n)
+    (hL : n ≤ L.length) : elisionOkButDepth L (depthLimit 200 L n) = true := by
+  obtain ⟨c, hs, hc, hpos, _, h1, h2, h3⟩ := C14_count n h
+  have hd := (C14_elided_of_enough L n h (by rw [← hc]; omega)).1
+  rw [← hc] at hd
+  have h200 : (L.take 200).length = 200 := by simp; omega
+  have hA : (L.take 200).findIdx? isElided = none :=
+    C14_findIdx_none_of_all_false _ (fun f hf => hne f (List.mem_of_mem_take hf))
+  have hfind : (L.take 200 ++ [Frame.elided c] ++ L.drop (200 + c)).findIdx? isElided = some 200 := by
+    rw [List.append_assoc, List.findIdx?_append, hA]
+    simp [List.findIdx?_cons, isElided, h200]
+  have hget : (L.take 200 ++ [Frame.elided c] ++ L.drop (200 + c))[200]? = some (Frame.elided c) := by
+    rw [List.append_assoc, List.getElem?_append_right (by omega)]
+    simp [h200]
+  have hdrop : (L.take 200 ++ [Frame.elided c] ++ L.drop (200 + c)).drop 201 = L.drop (200 + c) := by
+    have e : (201 : Nat) = (L.take 200 ++ [Frame.elided c]).length := by simp [h200]
+    rw [e, List.drop_left]
+  have htake : (L.take 200 ++ [Frame.elided c] ++ L.drop (200 + c)).take 200 = L.take 200 := by
+    rw [List.append_assoc, List.take_append_of_le_length (by omega)]
+    exact List.take_of_length_le (by omega)
+  have hlenB : (L.drop (200 + c)).length = L.length - (200 + c) := List.length_drop
+  have hnlt : ¬ (L.length < 500) := by omega
+  have hdd : L.drop (L.length - (L.length - (200 + c))) = L.drop (200 + c) := by
+    congr 1; omega
+  rw [hd]
+  unfold elisionOkButDepth
+  simp only [hnlt, if_false, hfind, hget, hdrop, htake, hlenB, hdd, beq_self_eq_true, Bool.true_and,
+    Bool.and_eq_true, decide_eq_true_eq]
+  refine ⟨⟨⟨by omega, trivial⟩, by omega⟩, hpos⟩
+
+/-! ### The per-CPU label frame -/
+
+/-- **The per-CPU label frame (and any single extra frame).** For hint `n ≥ 500` and an inner iterator that yields
+`n` or `n + 1` frames (`n + 1`: the thread label frame of a per-CPU copy in front of `n` recorded frames), the
+output meets the full judged statement. -/
+theorem C14_meets_spec_one_more (L : List Frame) (hne : ∀ f ∈ L, isElided f = false) (n : Nat) (h : 500 ≤ n)
+    (hL : n ≤ L.length) (hU : L.length ≤ n + 1) : elisionOk L (depthLimit 200 L n) = true := by
+  obtain ⟨c, hs, hc, hpos, _, h1, h2, h3⟩ := C14_count n h
+  have hd := (C14_elided_of_enough L n h (by rw [← hc]; omega)).1
+  rw [← hc] at hd
+  have h200 : (L.take 200).length = 200 := by simp; omega
+  have hA : (L.take 200).findIdx? isElided = none :=
+    C14_findIdx_none_of_all_false _ (fun f hf => hne f (List.mem_of_mem_take hf))
+  have hfind : (L.take 200 ++ [Frame.elided c] ++ L.drop (200 + c)).findIdx? isElided = some 200 := by
+    rw [List.append_assoc, List.findIdx?_append, hA]
+    simp [List.findIdx?_cons, isElided, h200]
+  have hget : (L.take 200 ++ [Frame.elided c] ++ L.drop (200 + c))[200]? = some (Frame.elided c) := by
+    rw [List.append_assoc, List.getElem?_append_right (by omega)]
+    simp [h200]
+  have hdrop : (L.take 200 ++ [Frame.elided c] ++ L.drop (200 + c)).drop 201 = L.drop (200 + c) := by
+    have e : (201 : Nat) = (L.take 200 ++ [Frame.elided c]).length := by simp [h200]
+    rw [e, List.drop_left]
+  have htake : (L.take 200 ++ [Frame.elided c] ++ L.drop (200 + c)).take 200 = L.take 200 := by
+    rw [List.append_assoc, List.take_append_of_le_length (by omega)]
+    exact List.take_of_length_le (by omega)
+  have hlenB : (L.drop (200 + c)).length = L.length - (200 + c) := List.length_drop
+  have hlen : (L.take 200 ++ [Frame.elided c] ++ L.drop (200 + c)).length = 201 + (L.length - (200 + c)) := by
+    simp only [List.length_append, List.length_cons, List.length_nil, h200, hlenB]
+  have hnlt : ¬ (L.length < 500) := by omega
+  have hdd : L.drop (L.length - (L.length - (200 + c))) = L.drop (200 + c) := by
+    congr 1; omega
+  rw [hd]
+  unfold elisionOk
+  simp only [hnlt, if_false, hfind, hget, hdrop, htake, hlenB, hdd, beq_self_eq_true, Bool.true_and,
+    Bool.and_eq_true, decide_eq_true_eq]
+  rw [hlen]
+  refine ⟨⟨⟨⟨⟨by omega, by omega⟩, trivial⟩, by omega⟩, by omega⟩, hpos⟩
+
+/-- … except at the boundary: a per-CPU copy of a 499-frame stack has 500 frames, the hint says 499, and the
+stack reaches the profile unshortened although it is 500 frames deep (recorded as C14-percpu-label-499; the
+output stays within 501 frames). -/
+theorem C14_percpu_label_499 (L : List Frame) (hne : ∀ f ∈ L, isElided f = false) (h : L.length = 500) :
+    depthLimit 200 L 499 = L ∧ elisionOk L (depthLimit 200 L 499) = false ∧ (depthLimit 200 L 499).length ≤ 501 := by
+  have hu := C14_unchanged L 499 (by omega)
+  rw [hu]
+  refine ⟨rfl, ?_, by omega⟩
+  unfold elisionOk
+  have : ¬ L.length < 500 := by omega
+  simp only [this, if_false]
+  rw [C14_findIdx_none_of_all_false L hne]
